@@ -97,8 +97,8 @@ def handle : P String := do
     if bs < 1 || bs > 3 then throw "bad block size"
     let A : Csr Rat := { rows := rows, cols := cols, rowPtr := rp.toArray, colInd := ci.toArray, val := v.toArray }
     match op with
-    | "apply" => pure (showR (A.applySB tiny bs t.x (Array.replicate (rows * bs) sentinel)))
-    | "axpy" => pure (showR (A.applyAxpySB tiny bs t.x t.y (if t.alias then t.y else Array.replicate (rows * bs) sentinel) t.alpha t.alias))
+    | "apply" => pure (showR (A.applySBQ bs t.x (Array.replicate (rows * bs) sentinel)))
+    | "axpy" => pure (showR (A.applyAxpySBQ bs t.x t.y (if t.alias then t.y else Array.replicate (rows * bs) sentinel) t.alpha t.alias))
     | _ => throw s!"unknown op {op}"
   | "cscr" =>
     itP
@@ -163,7 +163,11 @@ def handle : P String := do
     -- Tuple/PowerVector operands: the tree model `goSQ` on the unflattened vectors; flat operands: `goQ` with offsets
     let run := fun (ax : Option Rat) (x y r : Array Rat) (ali : Bool) =>
       if flat then M.goQ tr ax x y r ali
-      else (M.goSQ tr ax (M.unflatten tr x) (M.unflatten (!tr) y) (M.unflatten (!tr) r) ali).map MetaVec.flatten
+      else
+        let xs := M.unflatten tr x; let ys := M.unflatten (!tr) y; let rs := M.unflatten (!tr) r
+        -- the shape hypotheses of C01.meta_structured_tied are evaluated on every case
+        if !(M.fits tr xs && M.fits (!tr) ys && M.fits (!tr) rs) then none
+        else (M.goSQ tr ax xs ys rs ali).map MetaVec.flatten
     match op with
     | "apply" | "applyT" =>
       let r := Array.replicate nOut sentinel
